@@ -128,6 +128,11 @@ class DenseBlockDiagonalOperator(AbstractLinearOperator):
         if len(transpose_axis_as_set) > 1:
             raise ValueError(f'Several transposition axes have been specified: {subscripts!r}.')
         transpose_axis = transpose_axis_as_set.pop()
+        if lefts.count(sum_axis) != 1 or lefts.count(transpose_axis) != 1:
+            raise ValueError(
+                f'The summation and transposition axes should not be repeated in the blocks: '
+                f'{subscripts!r}.'
+            )
 
         # we swap the transpose and sum axes
         sum_axis_number = lefts.index(sum_axis)
